@@ -198,6 +198,7 @@ def selftest(ids):
     seeds = sorted(glob.glob(os.path.join(ROOT, "seeded", "*-*")))
     if ids:
         seeds = [s for s in seeds if os.path.basename(s).split("-")[0] in ids]
+    skipped = []
     bad = 0
     for sd in seeds:
         pid = os.path.basename(sd).split("-")[0]
@@ -207,6 +208,7 @@ def selftest(ids):
             ap = subprocess.run(["patch", "-p1", "-s", "-i", os.path.join(sd, "patch.diff")], cwd=scr, capture_output=True, text=True)
             if ap.returncode != 0:
                 print(f"SELFTEST {os.path.basename(sd)}: patch does not apply to the current tree (skipped)")
+                skipped.append(os.path.basename(sd))
                 continue
             env = dict(os.environ, VERIF_REPO=scr)
             p = subprocess.run([sys.executable, "-m", "vf.driver", pid, "quick"], cwd=ROOT, env=env, capture_output=True, text=True)
@@ -216,7 +218,7 @@ def selftest(ids):
             print(f"SELFTEST {os.path.basename(sd)}: check exit {p.returncode} ({'caught' if p.returncode == 1 else 'NOT CAUGHT'}), demo exit {d.returncode}")
         finally:
             shutil.rmtree(scr, ignore_errors=True)
-    print(f"selftest: {len(seeds) - bad}/{len(seeds)} seeded changes caught")
+    print(f"selftest: {len(seeds) - bad - len(skipped)}/{len(seeds)} seeded changes caught" + (f"; {len(skipped)} skipped because their patch no longer applies: {skipped}" if skipped else ""))
     return 0 if bad == 0 else 3
 
 
